@@ -63,6 +63,27 @@ pub fn requests(secret: &str) -> Vec<(String, WireReq, String, Cfg)> {
     out.push(mk("query-carrier", &|p| {
         p.url_params = vec![(b"k".to_vec(), b"v".to_vec())];
     }));
+    // the presented signature occurring in more than one place (every occurrence carries the same guess): a repeated
+    // X-Amz-Signature parameter (the first counts), a repeated Signature= field (the last counts), and a stray
+    // X-Amz-Signature query parameter next to header authentication (never part of what is signed)
+    {
+        let (_, mut w, sig, cfg) = mk("query-carrier", &|p| {
+            p.url_params = vec![(b"k".to_vec(), b"v".to_vec())];
+        });
+        w.uri = format!("{}&X-Amz-Signature={}", w.uri, sig);
+        out.push(("query-signature-twice".to_string(), w, sig, cfg));
+        let (_, mut w, sig, cfg) = mk("get-vanilla", &|_p| {});
+        for h in w.headers.iter_mut() {
+            if h.0.eq_ignore_ascii_case("authorization") {
+                let v = String::from_utf8_lossy(&h.1).to_string();
+                h.1 = format!("{}, Signature={}", v, sig).into_bytes();
+            }
+        }
+        out.push(("header-signature-field-twice".to_string(), w, sig, cfg));
+        let (_, mut w, sig, cfg) = mk("get-vanilla", &|_p| {});
+        w.uri = format!("{}?X-Amz-Signature={}", w.uri, sig);
+        out.push(("header-carrier-signature-also-in-query".to_string(), w, sig, cfg));
+    }
     out
 }
 
@@ -333,12 +354,15 @@ pub fn run(ctx: &Ctx) -> Report {
     } else {
         vec![(0, 0)]
     };
+    // request shapes in which the presented signature occurs twice (see `requests`)
+    let twice_shapes: [usize; 3] = [3, 4, 5];
     // 0..63 only position p wrong; 64..127 positions p.. wrong; 128..191 only p wrong, written in upper case
     let variants: Vec<usize> = if thorough { (0..192).collect() } else { (0..64).chain((128..192).step_by(8)).collect() };
     // split each group's variants over worker processes
     let workers = 16usize;
-    // leave four worker slots for the Debug-logger jobs so that everything runs in one wave
-    let per_group = ((workers - 4) / groups.len()).max(1);
+    // leave worker slots for the Debug-logger jobs (2) and the signature-twice shapes (3) so that everything runs
+    // in one wave
+    let per_group = ((workers - 5) / groups.len()).max(1);
     let mut jobs: Vec<(usize, usize, Vec<usize>, bool)> = Vec::new();
     for (si, ri) in &groups {
         let chunk = (variants.len() + per_group - 1) / per_group;
@@ -351,8 +375,19 @@ pub fn run(ctx: &Ctx) -> Report {
     {
         let dbg_variants: Vec<usize> = if thorough { (0..64).collect() } else { (0..64).step_by(4).collect() };
         let (si, ri) = groups[0];
-        for c in dbg_variants.chunks(4) {
+        for c in dbg_variants.chunks(if thorough { 4 } else { 8 }) {
             jobs.push((si, ri, c.to_vec(), true));
+        }
+    }
+    // the presented signature occurring twice: every 8th position in quick, all in thorough (both secrets)
+    {
+        let vs: Vec<usize> = if thorough { (0..128).collect() } else { (0..64).step_by(8).chain([63]).collect() };
+        for ri in twice_shapes {
+            for si in if thorough { vec![0usize, 1] } else { vec![0usize] } {
+                for c in vs.chunks(if thorough { 16 } else { 9 }) {
+                    jobs.push((si, ri, c.to_vec(), false));
+                }
+            }
         }
     }
     let outputs: Vec<(usize, usize, Vec<serde_json::Value>)> = {
@@ -439,7 +474,7 @@ pub fn run(ctx: &Ctx) -> Report {
     Report {
         stats: st,
         rule: format!(
-            "for each of {} (request, key) groups ({}): wrong signatures of the correct length — only position p wrong for every p in 0..63{} — substituted within the character's class (digit->digit, letter->letter), in lower case and (every 8th position in quick, all in thorough) with the letters in upper case, each family compared with its own all-wrong reference; the lower-case family is traced again with a logger installed at Debug level that formats every record; each is validated in a forked, warmed-up child of a single-threaded tracer (ship-profile build, logger off unless stated, byte-wise early-exit memcmp/bcmp linked in) and single-stepped under ptrace from just before to just after sigv4_validate_request; every trace must have the same length and the same RIP-sequence hash as the group's reference trace (all 64 characters wrong), which is itself traced twice to prove the apparatus deterministic. states = distinct (group, trace hash); transitions = machine instructions stepped",
+            "for each of {} (request, key) groups ({}): wrong signatures of the correct length — only position p wrong for every p in 0..63{} — substituted within the character's class (digit->digit, letter->letter), in lower case and (every 8th position in quick, all in thorough) with the letters in upper case, each family compared with its own all-wrong reference; the lower-case family is traced again with a logger installed at Debug level that formats every record; three further request shapes carry the presented signature twice (a repeated X-Amz-Signature parameter, a repeated Signature= field, a stray X-Amz-Signature query parameter next to header authentication; every 8th position in quick, all positions and both secrets in thorough); each is validated in a forked, warmed-up child of a single-threaded tracer (ship-profile build, logger off unless stated, byte-wise early-exit memcmp/bcmp linked in) and single-stepped under ptrace from just before to just after sigv4_validate_request; every trace must have the same length and the same RIP-sequence hash as the group's reference trace (all 64 characters wrong), which is itself traced twice to prove the apparatus deterministic. states = distinct (group, trace hash); transitions = machine instructions stepped",
             groups.len(),
             if thorough { "GET vanilla, POST body, query carrier x 2 secrets" } else { "GET vanilla, first secret" },
             if thorough { ", and positions p..63 all wrong for every p" } else { "" }
